@@ -228,12 +228,72 @@ def check(run):
             raise tlc.TLCError('vacuity guard: verdict counts %r' % counts)
     finally:
         res.cleanup()
+    export_histories(run)
     run.exhaustive = True
     run.rule = ('TLC enumerates (object class: 4 pose kinds, vertex, odometry / landmark / custom edge, graph) x (mutation: copy, single-component '
                 'perturbation 10^e*tol*scale in every numeric part at first/middle/last position, every structural difference, every other class of the '
                 'same category) x tol in {1e-9,1e-6,1e-3} x both directions; each state replayed on real objects; non-trivial = every distinct case')
     run.assumptions = ['perturbation magnitudes 10^e with e in {-12,-9,-6,-3} (far below), {3,4,6} (far above), {-1,0,1} (band: either answer accepted)',
                        'pairs are drawn within one category (pose/pose, vertex/vertex, edge/edge, graph/graph)']
+
+
+def export_histories(run):
+    """EqModel: a graph and its copy are equal (verdict T for mutation `copy`, both directions).  Here ONE of the two has a history of pure
+    calls - exported to a file, evaluated, plotted, optimised for zero effective steps on a copy - before the comparison: what equals() reports is a
+    function of the compared content, which none of these calls changes."""
+    import copy
+    import os
+    import tempfile
+    from graphslam.g2o_parameters import G2OParameterSE3Offset
+
+    def build(k):
+        k2 = point_kind(k)
+        vs = [Vertex(-4, mkpose(k)), Vertex(10 ** 9, mkpose(k, 1.0)), Vertex(6, mkpose(k2, 2.0))]
+        es = [EdgeOdometry([-4, 10 ** 9], mkinfo(B.CDIM[k]), mkpose(k, 0.5))]
+        off = mkpose(k, 0.25) if k == 'SE3' else type(mkpose(k)).identity()
+        es.append(EdgeLandmark([10 ** 9, 6], mkinfo(B.CDIM[k2]), mkpose(k2, 0.5), off, offset_id=3))
+        return Graph(es, vs)
+    n = 0
+    for k in ('SE2', 'SE3'):
+        for hist in ('to_g2o', 'to_g2o-registered', 'calc_chi2', 'plot', 'edge-queries', 'to_g2o-twice'):
+            x, y = build(k), build(k)
+            key = dict(cat='graph', kind=k, part='export-history', history=hist)
+            try:
+                first = (bool(x.equals(y, 1e-6)), bool(y.equals(x, 1e-6)))
+                if hist == 'to_g2o-registered' and k == 'SE3':
+                    for g in (x, y):
+                        g._g2o_params = {('PARAMS_SE3OFFSET', 3): G2OParameterSE3Offset(('PARAMS_SE3OFFSET', 3), mkpose(k, 0.25))}
+                if hist.startswith('to_g2o'):
+                    for _ in range(2 if hist.endswith('twice') else 1):
+                        fd, path = tempfile.mkstemp(suffix='.g2o')
+                        os.close(fd)
+                        try:
+                            x.to_g2o(path)
+                        except NotImplementedError:
+                            pass
+                        finally:
+                            os.unlink(path)
+                elif hist == 'calc_chi2':
+                    x.calc_chi2()
+                elif hist == 'plot':
+                    import matplotlib.pyplot as plt
+                    try:
+                        x.plot()
+                    finally:
+                        plt.close('all')
+                else:
+                    for e in x._edges:
+                        e.calc_error(); e.calc_jacobians(); e.calc_chi2_gradient_hessian(); e.to_g2o()      # noqa
+                second = (bool(x.equals(y, 1e-6)), bool(y.equals(x, 1e-6)))
+            except Exception as ex:  # noqa
+                run.violation(dict(key, outcome='raised'), 'comparing a graph with its copy raised %r (history of the first graph: %s)' % (ex, hist), dict(kind=k, history=hist))
+                continue
+            n += 1
+            run.count(key=('export-history', k, hist), nontrivial=True)
+            if first != (True, True) or second != (True, True):
+                run.violation(dict(key, outcome='wrong-False'), 'a graph and its copy: equals returns %r before and %r after the first one was %s (specification: T in both '
+                              'directions; none of these calls changes the compared content)' % (first, second, hist), dict(kind=k, history=hist))
+    run.notes['copies_compared_after_pure_calls'] = n
 
 
 def snap(obj):
